@@ -1124,8 +1124,28 @@ USERFILE_FAULTS = [
 ]
 
 
+def _prefix_faults():
+    """Every byte prefix of stores the engine itself writes (all crash points of the non-atomic save, cuts inside multi-byte characters
+    included), and hand-edited files with non-ASCII characters outside strings."""
+    out = []
+    docs = [("selection store", "phonetic-candidate-selection.json", '{"ami":"আমি","sesh":"শেষ"}'), ("user auto-correct file", "autocorrect.json", '{"xyz":"ami","বাং":"bangla"}')]
+    for label, fname, doc in docs:
+        b = doc.encode("utf-8")
+        for k in range(len(b)):
+            out.append(("%s cut after %d of %d bytes" % (label, k, len(b)), [{"op": "write_user_file", "name": fname, "bytes": list(b[:k])}]))
+    for label, fname, doc in (("selection store with typographic quotes", "phonetic-candidate-selection.json", '{“ami”: “আমি”}'),
+                              ("user auto-correct file with a Bengali letter outside a string", "autocorrect.json", '{"ami": আমি}'),
+                              ("user auto-correct file with typographic quotes", "autocorrect.json", '{“ami”: “ami”}')):
+        out.append((label, [{"op": "write_user_file", "name": fname, "bytes": list(doc.encode("utf-8"))}]))
+    return out
+
+
 def userfile_native(vs, ev):
     """Re-find the crash natively with real files (only what a user or a crashed save can produce)."""
+    global USERFILE_FAULTS
+    if not getattr(userfile_native, "extended", False):
+        USERFILE_FAULTS = list(USERFILE_FAULTS) + _prefix_faults()
+        userfile_native.extended = True
     keys = None
     import obl_assembly
     keys = obl_assembly.char_keys()
